@@ -505,6 +505,9 @@ func (s *FlowStats) UnmarshalBinary(data []byte) error {
 
 	for n < int(s.Length) {
 		instr := DecodeInstr(data[n:])
+		if instr.Len() == 0 {
+			return fmt.Errorf("an instruction in the flow-stats record reports length 0")
+		}
 		s.Instructions = append(s.Instructions, instr)
 		n += int(instr.Len())
 	}
